@@ -121,22 +121,7 @@ func (sc *specSweepCheck) register() {
 			sw := &sweep{c: c, defs: defs, alpha: sc.alpha, depth: depth}
 			if len(sc.alphaExt) > 0 {
 				c.Res.Bounds["alphabet_extension_for_argv_shorter_than_L"] = sc.alphaExt
-				sw.alpha = append(append([]string{}, sc.alpha...), sc.alphaExt...)
-				ext := map[string]bool{}
-				for _, t := range sc.alphaExt {
-					ext[t] = true
-				}
-				sw.filter = func(argv []string) bool {
-					if len(argv) < depth {
-						return true
-					}
-					for _, t := range argv {
-						if ext[t] {
-							return false
-						}
-					}
-					return true
-				}
+				sw.ext = sc.alphaExt
 			}
 			sw.visit = func(def *ph.Def, argv []string) {
 				res := c.Res
